@@ -2,4 +2,4 @@ import Driver.Run
 import Driver.Fam.Search
 open Driver
 /-- families of area "search" -/
-def main (args : List String) : IO UInt32 := run [Fam.search, Fam.secretscan, Fam.searchmut] args
+def main (args : List String) : IO UInt32 := run [Fam.search, Fam.secretscan, Fam.cellfmt, Fam.searchre, Fam.searchmut, Fam.secretbig] args
